@@ -78,23 +78,30 @@ for d in desc:
         sec.append("|---|---|---|")
         for sid, site, what, r in ss:
             by = "; ".join(f"`{v}`" for v in r.get("violations", [])[:3]) if r.get("detected_by") else "**missed**"
+            if json.load(open(os.path.join(V, "seeded", sid, "meta.json"))).get("obsolete"):
+                by = "retired: harmless after a later `fix:` commit, and no longer reported"
             sec.append(f"| {sid} | {site} | {by} |")
         sec.append("")
 
 # seeds table
 tbl = ["| seed | property | what the change does | caught by | obligation(s) |", "|---|---|---|---|---|"]
 nd = 0
+retired = []
 for sid in sorted(res):
     meta = json.load(open(os.path.join(V, "seeded", sid, "meta.json")))
     r = res[sid]
     what = meta.get("what_changed", "").replace("\n", " ").replace("|", "\\|")
     if len(what) > 260:
         what = what[:257] + "…"
+    if meta.get("obsolete"):
+        retired.append(sid)
+        tbl.append(f"| {sid} | {r['property']} | {what} | retired | a later `fix:` commit made this change harmless (see meta.json); not a witness mutant any more |")
+        continue
     if r.get("detected_by"):
         nd += 1
     tbl.append(f"| {sid} | {r['property']} | {what} | {', '.join(r.get('detected_by') or ['—'])} | {'; '.join('`'+v+'`' for v in r.get('violations', [])[:2])} |")
 tbl.append("")
-tbl.append(f"{nd} of {len(res)} kept seeded changes are reported by the quick check of their own property.")
+tbl.append(f"{nd} of {len(res) - len(retired)} live seeded changes are reported by the quick check of their own property" + (f"; {len(retired)} retired ({', '.join(retired)})." if retired else "."))
 
 # summary table
 summ = ["| id | level | obligations | rules | witness mutants | seeds caught |", "|---|---|---|---|---|---|"]
